@@ -34,7 +34,7 @@ def check(run):
         key = "%s/v%s/%s" % (r.get("kind"), r.get("version"), r.get("compression"))
         dist[key] = dist.get(key, 0) + 1
         ch = r.get("checks") or {}
-        if r.get("encode") != "ok" or r.get("decode") != "ok" or ch.get("roundtrip_equal") is False:
+        if r.get("encode") != "ok" or r.get("decode") != "ok" or ch.get("roundtrip_equal") is False or ch.get("chunked_decode") is False:
             f = fc.slim(r)
             f["kind_of_failure"] = "roundtrip"
             f["what"] = "frame %s v%s %s flags=%s does not round-trip (encode=%s decode=%s): %s" % (
@@ -55,6 +55,8 @@ def check(run):
             cases.append((r["id"] + ":dec", "dec_eq %s %s %s" % (c, fc.hxs(r["bytes"]), r["decoded"])))
         if r.get("encode") == "ok" and r.get("deterministic"):
             cases.append((r["id"] + ":enc", "enc_eq %s %s %s" % (c, r["frame"], fc.hxs(r["bytes"]))))
+    nv = fc.nonvalid_cases(recs)
+    cases += nv
     mism = []
     if cases and pr["ok"]:
         mism, cerr = fc.eval_cases("Cases_C01", fc.FRAME_PRELUDE, cases)
@@ -62,7 +64,7 @@ def check(run):
             broken.append(cerr)
         elif mism:
             broken.append("correspondence: model and implementation disagree on %d case(s): %s" % (len(mism), mism[:12]))
-            byid = {r["id"]: r for r in sel}
+            byid = {r["id"]: r for r in recs}
             for cid in mism[:6]:
                 r = byid.get(cid.split(":")[0], {})
                 f = fc.slim(r)
